@@ -247,7 +247,7 @@ func c06One(text string, os optSet, emit func(class string, c rt.Case, exp, got 
 	if _, isCircle := obj.(*geojson.Circle); isCircle {
 		if circleExtras(ref) {
 			emit("circle-drops-members", mk(), "id / other members / further ordinates preserved", j1)
-			return
+			// (listed finding: do not let it hide the centre / radius comparison below)
 		}
 		// centre and radius preserved
 		if ref.XY() != ref1.XY() {
